@@ -460,12 +460,6 @@ Definition computed_shard (sharderf : N -> option (N * N)) (t : Z) (n : N) : N :
   end.
 Definition with_shards (sharderf : N -> option (N * N)) (t : Z) (l : list N) : list (N * N) :=
   map (fun n => (n, computed_shard sharderf t n)) l.
-(* the server side: ScyllaDB's shard of the token on that node *)
-Definition spec_node_shard (sharderf : N -> option (N * N)) (t : Z) (n : N) : N :=
-  match sharderf n with
-  | Some (nr, msb) => spec_shard_of nr msb t
-  | None => 0%N
-  end.
 Fixpoint assoc_pair (l : list (N * option (N * N))) (n : N) : option (N * N) :=
   match l with
   | [] => None
